@@ -605,7 +605,12 @@ pub(crate) async fn execute_schema(agent: &Agent, statements: Vec<String>) -> ey
 
     // conn.trace(None);
 
-    apply_res?;
+    if let Err(e) = apply_res {
+        // cr-sqlite caches table definitions per connection and a rollback does not reset them:
+        // after a partially applied schema the cache describes columns that do not exist
+        conn.discard();
+        return Err(e);
+    }
 
     *schema_write = new_schema;
 
